@@ -30,7 +30,7 @@ Proof. intros cm H r l. rewrite H. apply full_spec. Qed.
 
 (* before the regex crate sees it a regex expression goes through three compatibility passes (unrecognised escapes,
    curly brackets that are no quantifier, square brackets inside a character class), transcribed in RegexPrep.v and compared
-   with the implementation on every run.  On an expression without backslash, curly or square bracket and `<` they change
+   with the implementation on every run.  On an expression without backslash, curly or square bracket they change
    nothing: the crate is given the expression as written *)
 Theorem C04_regex_prepare_plain : forall e, forallb plain_char e = true -> regex_prepare e = e.
 Proof. exact prepare_plain. Qed.
